@@ -31,6 +31,7 @@ import tlexport.main as tmain  # noqa: E402  (preloaded once; children are forke
 
 assert os.path.realpath(tmain.__file__).startswith(os.path.realpath(REPO) + os.sep), tmain.__file__
 
+_CPU_HITS = [0]
 CHILD_AT_EXIT = []   # callables run in the forked child just before it exits (monitors flush their event logs here)
 
 SHM = "/dev/shm" if os.path.isdir("/dev/shm") and os.access("/dev/shm", os.W_OK) else None
@@ -71,6 +72,8 @@ def run_tlexport(files, argv, child_setup=None, cpu=60, wall=900, cwd=None, outn
     status: 'ok' | 'exit:<n>' (SystemExit) | 'crash' (uncaught exception, traceback in stderr) |
             'cpu' (CPU budget exhausted: non-termination) | 'timeout' (wall clock only: inconclusive) | 'signal:<n>'"""
     t0 = time.time()
+    if _CPU_HITS[0] >= 3:
+        cpu = min(cpu, 5)       # this worker has already seen three runs exhaust their CPU budget: the verdict stands, do not spend a minute on every further run
     d = scratch_dir()
     try:
         for n, b in files.items():
@@ -145,6 +148,8 @@ def run_tlexport(files, argv, child_setup=None, cpu=60, wall=900, cwd=None, outn
                     return f.read()
             except (FileNotFoundError, IsADirectoryError):
                 return None
+        if status == "cpu":
+            _CPU_HITS[0] += 1
         cover.absorb(os.path.join(d, "_reach"))
         res = Result(status, [rd(n) for n in outnames], rd("_stdout"), rd("_stderr"), time.time() - t0, rd("_events"))
         if keep_dir:
